@@ -29,17 +29,19 @@ CONSTANTS RevLess(_, _),   \* strict total order on revisions (C05: markers lowe
 Revs(T) == {e.rev : e \in T}
 ParOf(T, r) == (CHOOSE e \in T : e.rev = r).par
 
-RECURSIVE RootedN(_, _, _)
-RootedN(T, r, fuel) ==
-    /\ fuel > 0
-    /\ r \in Revs(T)
-    /\ LET p == ParOf(T, r) IN
-       IF p = NoRev THEN Idx(r) = 1
-       ELSE RootedN(T, p, fuel - 1)
-Rooted(T, r) == RootedN(T, r, Cardinality(T) + 1)
+\* revisions whose ancestry reaches a creation revision (index 1, no parent): least fixpoint
+RECURSIVE RootedFix(_, _)
+RootedFix(T, R) ==
+    LET R2 == R \cup {e.rev : e \in {x \in T : x.par \in R}} IN
+    IF R2 = R THEN R ELSE RootedFix(T, R2)
+RootedSet(T) == RootedFix(T, {e.rev : e \in {x \in T : x.par = NoRev /\ Idx(x.rev) = 1}})
+Rooted(T, r) == r \in RootedSet(T)
 
 IsParent(T, r) == \E e \in T : e.par = r
-LiveLeaves(T) == {r \in Revs(T) : ~IsRes(r) /\ ~IsParent(T, r) /\ Rooted(T, r)}
+LiveLeaves(T) ==
+    LET ps == {e.par : e \in T}
+        rs == RootedSet(T)
+    IN {r \in Revs(T) : ~IsRes(r) /\ r \notin ps /\ r \in rs}
 MaxRev(S) == CHOOSE x \in S : \A y \in S : y = x \/ RevLess(y, x)
 Winner(T) == IF LiveLeaves(T) = {} THEN NoRev ELSE MaxRev(LiveLeaves(T))
 Conflicting(T) == LiveLeaves(T) \ {Winner(T)}
@@ -62,26 +64,26 @@ Readable(I, r) == SpecialRev(r) \/ DigOf(r) \in Avail(I)
 
 MaxIdx(I) == IF Blocks(I) = {} THEN 0 ELSE CHOOSE n \in {b.idx : b \in Blocks(I)} : \A b \in Blocks(I) : b.idx <= n
 
-\* parent index of a named parent: taken from the stored parent (absent parents make the block incomplete anyway)
-LocalOK(I, b) ==
+LocalOKAv(I, av, b) ==
     /\ b.ok
     /\ \A k \in b.packs : \E q \in Packs(I) : q.name = k /\ q.ok
-    /\ \A c \in b.changes : Readable(I, c.rev) /\ (c.prev # NoRev => Readable(I, c.prev))
+    /\ \A c \in b.changes : (SpecialRev(c.rev) \/ DigOf(c.rev) \in av)
+                              /\ (c.prev # NoRev => (SpecialRev(c.prev) \/ DigOf(c.prev) \in av))
+LocalOK(I, b) == LocalOKAv(I, Avail(I), b)
 
-\* Complete blocks, built level by level on the block index
-RECURSIVE CCUpTo(_, _)
-CCUpTo(I, n) ==
-    IF n = 0 THEN {}
-    ELSE LET below == CCUpTo(I, n - 1)
-             bn == Names(below)
-         IN  below \cup {b \in Blocks(I) :
-                           /\ b.idx = n
-                           /\ LocalOK(I, b)
-                           /\ b.parents \subseteq bn
-                           /\ \A p \in below : p.name \in b.parents => p.idx < n
-                           /\ IF b.parents = {} THEN n = 1
-                              ELSE \E p \in below : p.name \in b.parents /\ p.idx = n - 1}
-CC(I) == CCUpTo(I, MaxIdx(I))
+\* Complete blocks, built level by level on the block index (a complete block's parents all have a
+\* smaller index, and its index is one more than its highest parent's)
+CCLevels(I, av, n, acc) ==
+    acc \cup {b \in Blocks(I) :
+                 /\ b.idx = n
+                 /\ LocalOKAv(I, av, b)
+                 /\ b.parents \subseteq Names(acc)
+                 /\ \A p \in acc : p.name \in b.parents => p.idx < n
+                 /\ IF b.parents = {} THEN n = 1
+                    ELSE \E p \in acc : p.name \in b.parents /\ p.idx = n - 1}
+RECURSIVE CCFrom(_, _, _, _, _)
+CCFrom(I, av, n, maxn, acc) == IF n > maxn THEN acc ELSE CCFrom(I, av, n + 1, maxn, CCLevels(I, av, n, acc))
+CC(I) == CCFrom(I, Avail(I), 1, MaxIdx(I), {})
 
 \* ancestors (within B) of the blocks named in H
 RECURSIVE AncN(_, _, _)
